@@ -104,11 +104,30 @@ Definition sort_cyclic (l : list N) : list N := let '(a, b) := split_descent l i
    counter value read back afterwards) *)
 Definition c15_bulk_case := (N * N * bool * list (N * N) * N)%type.
 
+(* n library-numbered requests one after the other: the identifiers [auto_ids (run_seq s h)] and
+   the counter afterwards [final_counter s h] for h = n publishes, computed in one pass over the
+   same [new_id] (each step costs two 32-bit divisions in Coq) *)
+Fixpoint ids_and_final (s : N) (n : nat) : list N * N :=
+  match n with
+  | O => ([], s)
+  | S k => let '(c, id) := new_id s in let '(l, f) := ids_and_final c k in (id :: l, f)
+  end.
+
+Lemma ids_and_final_spec n : forall s,
+  ids_and_final s n = (auto_ids (run_seq s (repeat (HReq (RPub 1 0)) n)),
+                       final_counter s (repeat (HReq (RPub 1 0)) n)).
+Proof.
+  induction n as [|n IH]; intros s; [reflexivity|].
+  cbn [repeat run_seq final_counter ids_and_final]. unfold issue1.
+  change (is_auto (RPub 1 0)) with true. cbv iota.
+  destruct (new_id s) as [c id]. cbn [auto_ids fst]. change (is_auto (RPub 1 0)) with true. cbv iota.
+  rewrite IH. reflexivity.
+Qed.
+
 Definition c15_bulk_model_ok (c : c15_bulk_case) : bool :=
   let '(s, n, outst, rs, fin) := c in
-  let h := repeat (HReq (RPub 1 0)) (N.to_nat n) in
-  list_eqb N.eqb (sort_cyclic (auto_ids (run_seq s h))) (expand_runs rs)
-  && (final_counter s h =? fin).
+  let '(ids, f) := ids_and_final s (N.to_nat n) in
+  list_eqb N.eqb (sort_cyclic ids) (expand_runs rs) && (f =? fin).
 Definition c15_bulk_prop_ok (c : c15_bulk_case) : bool :=
   let '(s, n, outst, rs, fin) := c in
   let ids := expand_runs rs in
@@ -146,3 +165,51 @@ Definition c15_cycle_violations (cs : list c15_cycle_case) : list nat :=
   indices_where (fun c => negb (c15_cycle_prop_ok c)) cs.
 Definition c15_cycle_mismatches (cs : list c15_cycle_case) : list nat :=
   indices_where (fun c => negb (c15_cycle_model_ok c)) cs.
+
+(* ---------- family wrapc: the wrap-around under contention ---------- *)
+(* Same case shape as bulk. Thousands of short trials: the expected identifiers come from the closed
+   form, which props/C15.v proves to be what EVERY execution of the model chooses
+   (C15_closed_form, C15_schedule_independent; issued s = issued (s mod 2^16), issued_low_half),
+   so the set is compared without re-running the 32-bit model per trial. The counter read back
+   must have the last identifier as its low half (new_id_spec). *)
+Definition c15_wrapc_model_ok (c : c15_bulk_case) : bool :=
+  let '(s, n, outst, rs, fin) := c in
+  let lo := s mod M16 in
+  list_eqb N.eqb (sort_cyclic (issued_list lo 0 (N.to_nat n))) (expand_runs rs)
+  && (fin mod M16 =? issued lo (n - 1)).
+
+Definition c15_wrapc_violations (cs : list c15_bulk_case) : list nat :=
+  indices_where (fun c => negb (c15_bulk_prop_ok c)) cs.
+Definition c15_wrapc_mismatches (cs : list c15_bulk_case) : list nat :=
+  indices_where (fun c => negb (c15_wrapc_model_ok c)) cs.
+
+(* ---------- family retry: identifiers through RetryClient ---------- *)
+(* (operations, observed PUBLISH attempts (connection number, tag, identifier) in order) *)
+Definition c15_retry_case := (list xop * list (N * N * N))%type.
+
+Definition wire_view (w : wire) : list (N * N * N) :=
+  map (fun x => (fst x, r_tag (snd x), r_id (snd x))) w.
+Definition triple_eqb (a b : N * N * N) : bool :=
+  (fst (fst a) =? fst (fst b)) && (snd (fst a) =? snd (fst b)) && (snd a =? snd b).
+
+Fixpoint given_of_tag (ops : list xop) (tag : N) : option N :=
+  match ops with
+  | [] => None
+  | XPub t _ g :: rest => if t =? tag then Some g else given_of_tag rest tag
+  | XConn _ _ :: rest => given_of_tag rest tag
+  end.
+
+Definition c15_retry_model_ok (c : c15_retry_case) : bool :=
+  let '(ops, o) := c in list_eqb triple_eqb (wire_view (run_retry ops)) o.
+(* [sent_ok] on every observed attempt: non-zero, and the caller's identifier if one was given *)
+Definition c15_retry_prop_ok (c : c15_retry_case) : bool :=
+  let '(ops, o) := c in
+  forallb (fun x => match given_of_tag ops (snd (fst x)) with
+                    | Some g => sent_ok (mk_rmsg (snd (fst x)) 1 g (snd x))
+                    | None => false
+                    end) o.
+
+Definition c15_retry_violations (cs : list c15_retry_case) : list nat :=
+  indices_where (fun c => negb (c15_retry_prop_ok c)) cs.
+Definition c15_retry_mismatches (cs : list c15_retry_case) : list nat :=
+  indices_where (fun c => negb (c15_retry_model_ok c)) cs.
